@@ -431,6 +431,15 @@ class VizierServicer(vizier_service_pb2_grpc.VizierServiceServicer):
         suggest_decision_proto = temp_pythia_service.Suggest(
             suggest_request_proto
         )
+        # An answer that cannot be converted (e.g. a suggested parameter without
+        # a value) is a failure of the algorithm as well.
+        suggest_decision = svz.SuggestConverter.from_decision_proto(
+            suggest_decision_proto
+        )
+        new_py_trials = [
+            decision.to_trial() for decision in suggest_decision.suggestions
+        ]
+        new_trials = svz.TrialConverter.to_protos(new_py_trials)
       # Pythia can raise any exception: a remote Pythia wraps it inside
       # grpc.RpcError, the in-process PythiaServicer raises it as is.
       except Exception as e:  # pylint: disable=broad-except
@@ -455,9 +464,6 @@ class VizierServicer(vizier_service_pb2_grpc.VizierServiceServicer):
             request.suggestion_count - len(output_trials),
             len(suggest_decision_proto.suggestions),
         )
-      suggest_decision = svz.SuggestConverter.from_decision_proto(
-          suggest_decision_proto
-      )
 
       # Write the metadata update to the datastore. (Under the study lock, like
       # every other metadata write: see UpdateMetadata.)
@@ -485,11 +491,6 @@ class VizierServicer(vizier_service_pb2_grpc.VizierServiceServicer):
         output_op.done = True
         self.datastore.update_suggestion_operation(output_op)
         return output_op
-
-      new_py_trials = [
-          decision.to_trial() for decision in suggest_decision.suggestions
-      ]
-      new_trials = svz.TrialConverter.to_protos(new_py_trials)
 
       # Trial ids are allocated as max_trial_id + 1: allocate and create them
       # under the study lock, like CreateTrial, so that the two cannot pick the
@@ -827,13 +828,17 @@ class VizierServicer(vizier_service_pb2_grpc.VizierServiceServicer):
             f'Misconfigured automated_stopping_spec: {study.study_spec}'
         )
 
-      # Send request to Pythia.
-      temp_pythia_service = self._select_pythia_service(
-          study_config.pythia_endpoint
-      )
+      # Send request to Pythia. (Reaching the per-study Pythia server and
+      # converting its answer can fail like the algorithm itself.)
       try:
+        temp_pythia_service = self._select_pythia_service(
+            study_config.pythia_endpoint
+        )
         early_stopping_decisions_proto = temp_pythia_service.EarlyStop(
             early_stop_request_proto
+        )
+        early_stopping_decisions = svz.EarlyStopConverter.from_decisions_proto(
+            early_stopping_decisions_proto
         )
       except Exception:  # pylint: disable=broad-except
         # Don't leave the operation ACTIVE, otherwise every later check of this
@@ -845,9 +850,6 @@ class VizierServicer(vizier_service_pb2_grpc.VizierServiceServicer):
         output_operation.completion_time.CopyFrom(_get_current_time())
         self.datastore.update_early_stopping_operation(output_operation)
         raise
-      early_stopping_decisions = svz.EarlyStopConverter.from_decisions_proto(
-          early_stopping_decisions_proto
-      )
       # Update metadata from result.
       with self._study_name_to_lock[study_name]:
         self.datastore.update_metadata(
